@@ -126,8 +126,9 @@ def recInits (pe : P EOS) : Nat → List Token → Option (List (String × Expr)
   | f + 1, t :: ts =>
     if t = .rbrace then some ([], ts) else
     let key : Option (String × List Token) :=
+      -- the production `IF ":" Expr` builds the name `if`, which `to_valid_ident` then rejects: `{if: 1}` is an error
       match t, ts with
-      | .ident "if", .colon :: _ => some ("if", ts)
+      | .ident "if", .colon :: _ => none
       | _, _ => match pe (t :: ts) with
         | none => none
         | some (x, rest) => (x.toAttr).map (·, rest)
